@@ -97,6 +97,7 @@ type Path struct {
 	lockEvents bool
 	interleave   *FuncV            // vf.Interleave: pending operation of another thread
 	inInterleave bool
+	interleaveSites map[string]bool // static lock sites at which the preemption was already offered
 	heldLocks    map[*Object][2]int // per mutex: holds by the main thread / by the interleaved operation
 	guardedMaps map[*MapObj]string // vf.GuardMap: accesses are recorded as events "map:<name>"
 	guard      *Term // extra guard active during merged (speculative) evaluation; nil otherwise
